@@ -195,6 +195,40 @@ static std::string run_once(const Prog& p, int n, int mode /* 0 seq, 1 scheduled
   std::string orig_before = dump_ctx(*reinterpret_cast<Context*>(orig));
 
   std::vector<Obs> all;
+  if (mode == 3)
+  {
+    /* reference that does not depend on cloning: a context of its own per "thread", built from the same texts */
+    for (int i = 0; i < n; ++i)
+    {
+      int fd = memfd_create("f", 0);
+      bloc_context * fc = bloc_create_context(fd, fd);
+      bloc_executable * fpre = bloc_parse_executable(fc, p.prelude, nullptr);
+      if (!fpre || !bloc_execute(fpre)) return "{\"fatal\":\"prelude (fresh)\"}";
+      bloc_free_executable(fpre);
+      bloc_executable * fexe = bloc_parse_executable(fc, p.text, nullptr);
+      if (!fexe) return "{\"fatal\":\"parse (fresh)\"}";
+      Context * c = reinterpret_cast<Context*>(fc);
+      Symbol * s = c->findSymbol("K");
+      if (s) c->storeVariable(s->id(), Value(Integer(i + 1)));
+      Obs o;
+      bloc_bool ok = bloc_execute(fexe);
+      o.ok = ok ? 1 : 0;
+      if (!ok)
+      {
+        o.err_no = bloc_errno();
+        const char * m = bloc_strerror();
+        o.err = m ? m : "";
+      }
+      if (c->ctxout()) fflush(c->ctxout());
+      o.out = read_fd(fd);
+      o.dump = dump_ctx(*c);
+      bloc_free_executable(fexe);
+      bloc_free_context(fc);
+      close(fd);
+      all.push_back(o);
+    }
+    rounds = 0;
+  }
   for (int round = 0; round < rounds; ++round)
   {
     std::vector<bloc_context*> clones(n);
@@ -426,7 +460,7 @@ int main(int argc, char ** argv)
     for (int i = 0; i < NPROGS; ++i) printf("%s\n", PROGS[i].name);
     return 0;
   }
-  if (argc < 4) { fprintf(stderr, "usage: sched explore|replay|seq|free <prog> <nthreads> ...\n"); return 2; }
+  if (argc < 4) { fprintf(stderr, "usage: sched explore|replay|seq|fresh|free <prog> <nthreads> ...\n"); return 2; }
   const Prog * p = find_prog(argv[2]);
   if (!p) { fprintf(stderr, "unknown program %s\n", argv[2]); return 2; }
   int n = atoi(argv[3]);
@@ -434,6 +468,12 @@ int main(int argc, char ** argv)
   if (cmd == "seq")
   {
     Exec r = run_child(*p, n, 0, {});
+    printf("%s", r.json.c_str());
+    return r.ok ? 0 : 1;
+  }
+  if (cmd == "fresh")
+  {
+    Exec r = run_child(*p, n, 3, {});
     printf("%s", r.json.c_str());
     return r.ok ? 0 : 1;
   }
@@ -467,6 +507,13 @@ int main(int argc, char ** argv)
     Exec ref = run_child(*p, n, 0, {});
     if (!ref.ok) { printf("{\"fatal\":\"reference run failed\",\"detail\":%s}\n", ref.json.c_str()); return 2; }
     Stats st;
+    /* the sequential run in clones must itself equal runs in contexts that were never cloned */
+    Exec fresh = run_child(*p, n, 3, {});
+    if (!fresh.ok || fresh.obs != ref.obs)
+    {
+      st.violations++;
+      report_violation("clone-differs-from-fresh-context", {}, ref, fresh.ok ? fresh.obs : fresh.json);
+    }
     /* determinism of the default schedule: run it twice */
     Exec d1 = run_child(*p, n, 1, {}), d2 = run_child(*p, n, 1, {});
     if (d1.obs != d2.obs || d1.trace.size() != d2.trace.size())
